@@ -208,8 +208,9 @@ def run_both(cases, workdir, puf=True, profile="debug", shards=16, timeout=600, 
             if not part:
                 continue
             futs.append(("r", ex.submit(run_ops, harness_bin(profile, puf), [str(stack)] if stack else [], part, workdir, "r%d" % k, timeout)))
-            if want_model:
-                futs.append(("m", ex.submit(run_ops, driver_bin(), ["1" if puf else "0"], part, workdir, "m%d" % k, timeout)))
+            mpart = [(i, c) for i, c in part if not c.meta.get("oracle_only")]
+            if want_model and mpart:
+                futs.append(("m", ex.submit(run_ops, driver_bin(), ["1" if puf else "0"], mpart, workdir, "m%d" % k, timeout)))
         for kind, f in futs:
             res, crashes = f.result()
             if kind == "r":
